@@ -240,7 +240,7 @@ def analyse(run, tables):
     FLOATS = [t for t in plain if type(t).__name__ in ("Float32", "Float64", "Decimal")]
     nonuni = {}
     noconst = {}
-    checked_u = checked_c = 0
+    checked_u = checked_c = checked_l = 0
     for k, o in rt.items():
         opname, sig = k.split("|", 1)
         parts = sig.split(",") if sig else []
@@ -266,6 +266,17 @@ def analyse(run, tables):
                         f2 = _fam_of_repr(o2[1])
                         if f1 != f2:
                             nonuni.setdefault(opname, []).append((k, repr(m), o2))
+            # (v') a Python literal (const Int / const Float / const String) is accepted wherever a column of a sized
+            #      member of its family is (literals are how constants reach an operator in practice)
+            litgen = "Int" if base in [repr(t) for t in INTS] else "Float" if base in ("Float32", "Float64") else "String(None)" if base.startswith("String(") and base != "String(None)" else None
+            if not isconst and o[0] == "ok" and litgen is not None:
+                q = parts.copy()
+                q[i] = "const " + litgen
+                o2 = rt.get(opname + "|" + ",".join(q))
+                if o2 is not None:
+                    checked_l += 1
+                    if o2[0] != "ok":
+                        noconst.setdefault(opname, []).append((k, o2, "literal of the generic type"))
             if not isconst and o[0] == "ok":
                 q = parts.copy()
                 q[i] = "const " + p
@@ -276,6 +287,7 @@ def analyse(run, tables):
                         noconst.setdefault(opname, []).append((k, o2))
     run.counters["uniformity_substitutions_checked"] += checked_u
     run.counters["const_substitutions_checked"] += checked_c
+    run.counters["literal_for_sized_column_substitutions_checked"] += checked_l
     for opname, lst in sorted(nonuni.items()):
         nullish = all("NullType" in x[0] for x in lst)
         viol(f"`{opname}`: accepted with the generic type but not uniformly with a sized member ({len(lst)} cases), e.g. {lst[0]}",
